@@ -94,7 +94,7 @@ def first_slices():
     return out
 
 
-def decide(ctx, fn, pname, mode_val, first, scope_kind, rest=None, recursive=()):
+def decide(ctx, fn, pname, mode_val, first, scope_kind, rest=None, recursive=(), rec_result=None):
     """abstract outcomes of `fn` for a path whose first slice is `first` (a ScopeIndex resolving to `scope_kind`), in the given
     mode, every further slice being of kind `rest`"""
     import absint as ai
@@ -105,6 +105,10 @@ def decide(ctx, fn, pname, mode_val, first, scope_kind, rest=None, recursive=())
             return [(scope_kind if scope_kind is not None else ai.FREE, st)]
         if k == "mcall":
             m = e["m"]
+            if m in recursive and rec_result is not None and "write" not in m:
+                vs = [o.value for o in it.ev(e["recv"], st) if o.kind == "val"]
+                if len(vs) == 1 and isinstance(vs[0], str) and vs[0] in rec_result:
+                    return [(rec_result[vs[0]], st.event(("rec", m)))]
             if m in recursive:
                 ev_ = ("write", "{}") if "write" in m else ("rec", m)
                 return [(("Ok", ai.FREE) if "write" in m else ai.FREE, st.event(ev_))]
@@ -181,6 +185,24 @@ def agree_rule(ctx):
             table.append((mode, label, acc, bl))
     if not seen_loop:
         return [ob("C11.agree/shape", None, ctx.where(wf), "no path through the writer reaches a loop over the remaining slices in a form this rule reads: agreement is not decided for this tree")], wf
+    # a conditional is assignable when the branch that is taken is: the predicate accepts it iff at least one branch is legal
+    F_ = ai.FREE
+    for mode in ("model", "script", "general"):
+        wrong, und = [], False
+        for tb in ("legal", "illegal", "no path"):
+            for fb in ("legal", "illegal", "no path"):
+                def br(tag, st_):
+                    return ("T", (("E", "NotInPath", ()) if st_ == "no path" else ("E", "InPath", (tag,)), F_))
+                first = ("E", "Condition", (F_, br("$BR:t", tb), br("$BR:f", fb)))
+                acc = accepts(decide(ctx, pf, pname, modes[mode], first, None, recursive=REC, rec_result={"$BR:t": tb == "legal", "$BR:f": fb == "legal"}))
+                want = tb == "legal" or fb == "legal"
+                if acc is None:
+                    und = True
+                elif acc != want:
+                    wrong.append("true branch %s, false branch %s: %s" % (tb, fb, "accepted" if acc else "rejected"))
+        obs.append(ob("C11.agree/condition/%s" % mode, None if (und and not wrong) else not wrong, ctx.where(pf),
+                      "a conditional is accepted iff one of its branches is" if not wrong else "; ".join(wrong[:3]),
+                      witness=None if not wrong else "model:value=\"{{ edit ? form.name : '' }}\" loses its path: the edit is not written back"))
     n_acc = 0
     for mode, label, acc, bl in table:
         key = "C11.agree/first/%s/%s" % (mode, label)
@@ -563,6 +585,47 @@ def never_rule(ctx):
             except minieval.Unknown:
                 okd = None
         obs.append(ob("C11.never/for-ambiguous", okd, ctx.where(f), "list path kind by (has model path, has script path): %s (expected: both -> none, model only -> data scope, script only -> script, neither -> none)" % (tab or "not read")))
+        # the list's own path is handed to the runtime (`F(list, key, state, PATH, ..)`) exactly when the item scope was declared
+        # with a path: the item paths emitted inside the loop spread that array
+        import absint as ai
+        pm = sir.parent_map(f.body)
+        sites = [x for x in sir.walk(f.body) if x.get("k") == "mcall" and x["m"] == "lvalue_path" and len(x["args"]) == 3 and sir.expr_str(x["args"][2]) == "None"]
+        okl = None
+        dl = "emission of the list path not found in a form this rule reads"
+        for c in sites:
+            cur = c
+            node = None
+            while id(cur) in pm:
+                cur = pm[id(cur)]
+                if cur.get("k") in ("if", "match") and "lvalue_path_from_data_scope" in sir.expr_str(cur.get("cond") or cur.get("e")):
+                    node = cur
+                    break
+            if node is None:
+                continue
+
+            def hooks(it, e, st):
+                if e.get("k") == "mcall" and e["m"] == "lvalue_path":
+                    return [(("Ok", ai.UNIT), st.event(("path",)))]
+                return None
+            res = {}
+            for nm, val in (("none", ai.NONE), ("data scope", ("Some", True)), ("script", ("Some", False))):
+                it = ai.Interp(hooks=hooks, idx=tc)
+                try:
+                    outs = it.run(node, {"lvalue_path_from_data_scope": val, "w": ai.FREE, "p": ai.FREE, "scopes": ai.FREE})
+                except ai.TooManyPaths:
+                    outs = []
+                kinds = set()
+                for o in outs:
+                    if o.tainted:
+                        kinds.add("?")
+                    kinds.add("path" if any(ev[0] == "path" for ev in o.events) else "null" if any(ev[0] == "write" and "null" in ev[1] for ev in o.events) else "nothing")
+                res[nm] = sorted(kinds)
+            if any("?" in v or not v for v in res.values()):
+                continue
+            okl = res == {"none": ["null"], "data scope": ["path"], "script": ["path"]}
+            dl = "the list path is written for %s" % res
+        obs.append(ob("C11.never/for-list-path", okl, ctx.where(f), dl,
+                      witness=None if okl is not False else "wx:for over a list of a wxs module with an event binding on the item: F(..,null,..) while the item emits [...h,\"f\"], spreading null"))
     inner = [f for f in tc.fns if f.name == "to_proc_gen_define_children_content_inner" and f.body]
     if inner:
         f = inner[0]
